@@ -125,3 +125,7 @@ if _z3 is not None:
         CASES.append(no_store_into_flagged_case(_c))
     for _c in ("Euler3D", "EulerGraph"):
         CASES += [_C02.compute_dxdt_case(_c, "C03"), _C02.apply_dxdt_case(_c, "C03")]
+    # the chemostat map reaches the engine in the layout of the state (cell-major): set-up contract of C14
+    from props import C14 as _C14
+    CASES += [_C14.dispatch_case("grid", "none", "euler"), _C14.dispatch_case("graph", "none", "gillespie"),
+              _C14.transposition_case("int")]
